@@ -182,18 +182,20 @@ def run(ck):
                 conc.append([n, tracks, [rng.choice([0, 0, 1, 3, 8]) for _ in range(n)]])
     ck.stream("concurrent", conc, "C20conc_run", "C20conc", "C20conc_ok", nontrivial=lambda c: c[0] >= 2,
               sig=lambda c, e, o: "pull-concurrent", timeout=900)
-    # overlapping first requests with consumers attached BEFORE the other registration; the cameras end later:
-    # case = (tracks first attach1 attach2 end2first kind1 kind2 keepalive)
+    # overlapping first requests with consumers attached before / during / after the other registration; the
+    # cameras end later: case = (tracks first attach1 attach2 end2first kind1 kind2 keepalive), attach1 = 0 none,
+    # 1 before the second registration, 2 between its swap and its consumer-count check, 3 right after stream 1
+    # became "replaced", 4 after the second registration has finished
     repl = []
     for rep in range(4 if T else 1):
         for first in (0, 1):
-            for a1 in (0, 1):
+            for a1 in (0, 1, 2, 3, 4):
                 for a2 in (0, 1):
                     for e in (0, 1):
                         repl.append([rng.choice([1, 3]), first, a1, a2, e, rng.choice([EOF, RESET]),
                                      rng.choice([EOF, RESET]), rng.choice([0, 1])])
     for _ in range(60 if T else 8):
-        repl.append([rng.choice([0, 1, 2, 3]), rng.choice([0, 1]), rng.choice([0, 1, 1]), rng.choice([0, 1]),
+        repl.append([rng.choice([0, 1, 2, 3]), rng.choice([0, 1]), rng.choice([0, 1, 2, 3, 4, 4]), rng.choice([0, 1]),
                      rng.choice([0, 1]), rng.choice([EOF, RESET]), rng.choice([EOF, RESET]), rng.choice([0, 1])])
     ck.stream("replaced", repl, "C20repl_run", "C20repl", "C20repl_ok", nontrivial=lambda c: c[2] or c[3],
               sig=lambda c, e, o: "pull-replaced-stream-consumers", timeout=900)
@@ -209,8 +211,9 @@ def run(ck):
              "path, scripts that end after 0..n steps; (play) ending/non-ending events at offsets of the play phase; (random) "
              "1-3 rounds of random scripts of length 0..16; (concurrent) 2-4 requesters released together against an all-ok camera, with "
              "delays injected between swap and retire in media.Regist, observed after a packet on every connection; (replaced) two "
-             "overlapping requests with per-connection gated handshakes: stream 1 registers and optionally gets a consumer, then "
-             "stream 2 registers (replacing it) and optionally gets one, a packet on every connection, then the cameras end in "
+             "overlapping requests with per-connection gated handshakes: stream 1 registers, stream 2 registers (replacing it) and "
+             "optionally gets a consumer; the consumer of stream 1 joins before the second registration, between its swap and its "
+             "consumer-count check, right after stream 1's status became replaced, after the second registration, or never; then a packet on every connection, then the cameras end in "
              "either order (EOF/reset): Close calls per consumer, ConsumerCount of both streams, registry, connections, counter, "
              "goroutines at three points; (race, thorough) "
              "cameras hanging up right after PLAY under the Go race detector, reports confined to pull client/factory. Compared per round: requester's answer, request sequence read by "
